@@ -189,6 +189,21 @@ def dom_trace(tid, n, lo, up, w):
     return t
 
 
+def refused_calls(n, rng):
+    """Calls the library REFUSES (the documented ValueError for values that are not known), made in between the traces: a refused call
+    must leave nothing behind that changes later results (seed C05-f: a memoised id array restored only when no exception escapes)."""
+    p = rng.randrange(n)
+    g = IncompleteCooperativeGame(n)
+    known = [c for c in range(2 ** n) if not c >> p & 1] if rng.random() < 0.5 else [c for c in range(2 ** n) if c >> p & 1 or c == 0]
+    g.set_known_values([float(rng.randint(0, 5)) for _ in known], [Coalition(c) for c in known])
+    for call in (lambda: list(compute_shapley_value(g)), lambda: compute_shapley_value_for_player(p, g),
+                 lambda: compute_shapley_value_for_player((p + 1) % n, g)):
+        try:
+            call()
+        except Exception:  # noqa: BLE001
+            pass
+
+
 def main():
     ap = argparse.ArgumentParser()
     ap.add_argument("--out", required=True)
@@ -214,6 +229,8 @@ def main():
             for j in range(a.random):
                 tid += 1
                 kind = j % 5
+                if j % 3 == 0 and n >= 2:
+                    refused_calls(n, rng)
                 v = [0.0] + [float(rv()) for _ in range(NC - 1)]
                 if n >= 11:
                     # eleven players and more (seed C06-f: a size table that loses player 10): SPARSE games -- three non-zero coalitions, one of
@@ -295,6 +312,8 @@ def main():
             for j in range(a.random):
                 tid += 1
                 kind = j % 5
+                if j % 3 == 0 and n >= 2:
+                    refused_calls(n, rng)
                 lo = [0.0] + [float(rv()) for _ in range(NC - 1)]
                 width = [0.0] + [float(rng.choice([0, 0, 1, 2, 5])) for _ in range(NC - 1)]
                 if kind == 0:
